@@ -116,8 +116,12 @@ class OscInterface(ABC):
         bundles. Empty strings are sent unchanged.
         '''
         # Time has to be set here for nested bundles (completion msg case).
-        send_time = _libsc3.main.current_tt._seconds
-        self._send(self._build_msg(send_time, list(args)), target)
+        # The current time thread is global, from other threads wait until
+        # no clock is running a routine.
+        with _libsc3.main._main_lock:
+            send_time = _libsc3.main.current_tt._seconds
+            msg = self._build_msg(send_time, list(args))
+        self._send(msg, target)
 
     def send_bundle(self, target, time, *elements):
         '''
@@ -128,8 +132,12 @@ class OscInterface(ABC):
         an already late timetag (no check for sign).
         '''
         # Time has to be set here for nested bundles consistency.
-        send_time = _libsc3.main.current_tt._seconds
-        self._send(self._build_bundle(send_time, [time, *elements]), target)
+        # The current time thread is global, from other threads wait until
+        # no clock is running a routine.
+        with _libsc3.main._main_lock:
+            send_time = _libsc3.main.current_tt._seconds
+            msg = self._build_bundle(send_time, [time, *elements])
+        self._send(msg, target)
 
     @abstractmethod
     def _send(self, msg, target):
